@@ -18,22 +18,31 @@ def main():
     for name in sorted(f[:-5] for f in os.listdir(rdir) if f.endswith(".diff")):
         if want and not any(name.startswith(w) for w in want):
             continue
-        st = subprocess.run(["git", "-C", "/repo", "status", "--porcelain", "--untracked-files=no"], stdout=subprocess.PIPE, text=True).stdout.strip()
-        assert st == "", "/repo not clean"
-        rc, out = sh(["git", "-C", "/repo", "apply", os.path.join(rdir, name + ".diff")])
+        # against a scratch worktree (CBVERIF_REPO), so that /repo itself is never touched
+        import shutil
+        wt = "/tmp/refactorscratch/wt"
+        sh(["git", "-C", "/repo", "worktree", "remove", "--force", wt])
+        shutil.rmtree(wt, ignore_errors=True)
+        os.makedirs("/tmp/refactorscratch", exist_ok=True)
+        rc, out = sh(["git", "-C", "/repo", "worktree", "add", "--detach", wt, "HEAD"])
+        assert rc == 0, out
+        rc, out = sh(["git", "apply", os.path.join(rdir, name + ".diff")], cwd=wt)
         assert rc == 0, out
         print(f"== {name}", flush=True)
         r = {}
+        env2 = dict(ENV, CBVERIF_REPO=wt)
         try:
             for p in ALL:
                 t0 = time.time()
-                rc, out = sh([os.path.join(ROOT, "check"), p, "--tier", "quick"], cwd=ROOT)
+                pr = subprocess.run([os.path.join(ROOT, "check"), p, "--tier", "quick"], cwd=ROOT, env=env2, stdout=subprocess.PIPE, stderr=subprocess.STDOUT, text=True)
+                rc, out = pr.returncode, pr.stdout
                 alarm = rc != 0 or any(l.startswith("VIOLATION") for l in out.splitlines())
                 r[p] = {"exit": rc, "alarm": alarm, "tail": [l for l in out.splitlines() if l.strip()][-3:]}
                 if alarm:
                     print(f"   {p}: ALARM exit {rc}: {r[p]['tail']}", flush=True)
         finally:
-            sh(["git", "-C", "/repo", "checkout", "--", "."])
+            sh(["git", "-C", "/repo", "worktree", "remove", "--force", wt])
+            shutil.rmtree(wt, ignore_errors=True)
         results[name] = {"silent": not any(v["alarm"] for v in r.values()), "alarms": {k: v for k, v in r.items() if v["alarm"]},
                          "repo_commit": subprocess.run(["git", "-C", "/repo", "rev-parse", "--short", "HEAD"], stdout=subprocess.PIPE, text=True).stdout.strip()}
         print(f"   silent on all 20: {results[name]['silent']}", flush=True)
